@@ -15,7 +15,7 @@ pub fn def() -> PropDef {
         nontrivial,
         functional: true,
         post: super::no_post,
-        rule: "histories of 2-50 executions of generated programs (biased to list / string concatenation and macros over context variables, with values aliased between variables) against one context: after every execution the context's variables and every value returned earlier are re-read and must be unchanged, and the program is executed a second time and must return an equal result; the same histories are then executed by the separate celconc binary with 4 (quick) / 16 (thorough) threads x 20 / 200 rounds sharing &Program and a root &Context through inner scopes, every execution compared with the sequential result; celconc also carries the compile-time Send + Sync assertions for Program, Context, Value, ExecutionError; non-trivial = the history contains a concatenation or a macro; distinct = distinct (context, history)",
+        rule: "histories of 2-50 executions of generated programs (biased to list / string concatenation and macros over context variables, with values aliased between variables; 0-60% of the executions of a history end in an error raised at depth 1-8; regular-expression matches with two distinct patterns per history) against one context: after every execution the context's variables and every value returned earlier are re-read and must be unchanged, and the program is executed a second time and must return an equal result; the same histories are then executed by the separate celconc binary with 4 (quick) / 16 (thorough) threads x 20 / 200 rounds sharing &Program and a root &Context through inner scopes, every execution compared with the sequential result; celconc also carries the compile-time Send + Sync assertions for Program, Context, Value, ExecutionError; non-trivial = the history contains a concatenation or a macro; distinct = distinct (context, history)",
         exhaustive_note: "random sample of histories; thread interleavings are whatever the scheduler produces",
     }
 }
@@ -41,7 +41,30 @@ pub fn gen_history(rng: &mut Rng) -> (CtxSpec, Vec<String>) {
         "zs[0] + xs", "zs + zs", "[xs, ys, xs + ys]", "xs.map(x, xs + [x])", "id(xs) + id(ys)", "id(s) + s", "size(xs + ys) == size(xs) + size(ys)", "xs", "ys", "s", "zs[0]", "{'k': xs}.k + xs",
         "m", "xs.map(x, s + string(x))", "xs + xs.map(x, x * 2)", "(xs + ys).filter(x, x != n) + xs", "n + 1", "xs == ys", "[s + s, s]", "xs.map(x, ys).map(l, l + [n])",
     ];
-    let progs = (0..n).map(|_| rng.pick(&templates).to_string()).collect();
+    // executions that end in an error, at various depths (a failed execution must leave nothing
+    // behind either: the next one yields what it would yield alone)
+    let failing = [
+        "1 / 0", "xs.map(x, [x, 10 / (x - x)])", "xs + [1 / 0]", "zs[0][99] + 1", "undefined_name + 1", "xs.map(x, nope(x))", "m.no_such_key.deeper", "s + 1",
+        "id(1 / 0)", "[1, 2, 3].all(x, 1 / (x - x) > 0)", "[[[[[[1 % 0]]]]]]", "{'a': {'b': {'c': [1, 2][5] + 1}}}", "n + 9223372036854775807", "(xs + ys).map(x, xs.map(y, y / (n - n)))", "int('x')",
+        "true ? [xs.map(x, s + x)] : []", "duration('x')", "[1, 2].map(x, [3, 4].map(y, [5, 6].map(z, x / (y - y))))",
+    ];
+    // regular expressions: a few distinct patterns per history (each (pattern, text) pair is
+    // answered by the real `regex` crate for the model)
+    let regexes = ["s.matches('^a')", "s.matches('b$')", "s.matches('[0-9]+')", "'abc'.matches('a.c')", "'abc'.matches('^b')", "t.matches('x|y')", "'2024-01'.matches('^[0-9]{4}-[0-9]{2}$')"];
+    let r0 = rng.below(regexes.len() as u64) as usize;
+    let my_regexes = [regexes[r0], regexes[(r0 + 3) % regexes.len()]];
+    let fail_pct = *rng.pick(&[0u64, 10, 30, 60]);
+    let progs = (0..n)
+        .map(|_| {
+            if rng.below(100) < fail_pct {
+                rng.pick(&failing).to_string()
+            } else if rng.chance(1, 8) {
+                rng.pick(&my_regexes).to_string()
+            } else {
+                rng.pick(&templates).to_string()
+            }
+        })
+        .collect();
     (spec, progs)
 }
 
